@@ -1635,6 +1635,50 @@ func (r *e2Run) stress(ctx context.Context) {
 			r.setLastEnded(os)
 			r.count("stress_glines", 1)
 		}
+		earlyReader := func() {
+			// what every client does: the long-poll is opened right after the session was created, before NICK.
+			// The connection table then has no nickname for it and the connection status page looks it up
+			// while the NICK (and a later nickname change) is applied
+			rctx, cancel := context.WithTimeout(ctx, 20*time.Second)
+			defer cancel()
+			nd := r.nodes[node]
+			code, body, _, err := r.request(rctx, node, "POST", "/robustirc/v1/session", nil, "")
+			var rep struct{ Sessionid, Sessionauth string }
+			if err != nil || code != 200 || json.Unmarshal(body, &rep) != nil || rep.Sessionid == "" || !nd.aliveA.Load() {
+				return
+			}
+			r.noteSecret(rep.Sessionid, rep.Sessionauth)
+			h := map[string]string{"X-Session-Auth": rep.Sessionauth}
+			var inner sync.WaitGroup
+			inner.Add(1)
+			go func() {
+				defer inner.Done()
+				pctx, pcancel := context.WithTimeout(rctx, 3*time.Second)
+				defer pcancel()
+				req, _ := http.NewRequestWithContext(pctx, "GET", "https://"+nd.addr+"/robustirc/v1/"+rep.Sessionid+"/messages?lastseen=0.0", nil)
+				req.Header.Set("X-Session-Auth", rep.Sessionauth)
+				e2Serve(nd.api, &e2StreamWriter{hdr: http.Header{}, on: func(m *robust.Message) {}}, req)
+			}()
+			time.Sleep(50 * time.Millisecond)
+			for k := 0; k < 3; k++ {
+				inner.Add(1)
+				go func() {
+					defer inner.Done()
+					for j := 0; j < 3; j++ {
+						get("/status/getmessage")()
+						time.Sleep(time.Duration(1+r.choice("stress/pagegap", 40)) * time.Millisecond)
+					}
+				}()
+			}
+			for i, line := range []string{fmt.Sprintf("NICK er%d", g), "USER st 0 * :st", fmt.Sprintf("NICK er%db", g)} {
+				b, _ := json.Marshal(map[string]interface{}{"Data": line, "ClientMessageId": uint64(9500000 + g*10 + i)})
+				r.request(rctx, node, "POST", "/robustirc/v1/"+rep.Sessionid+"/message", h, string(b))
+			}
+			inner.Wait()
+			r.request(rctx, node, "DELETE", "/robustirc/v1/"+rep.Sessionid, h, `{"Quitmessage":"done"}`)
+			r.setLastEnded(rep.Sessionid)
+			r.count("stress_early_readers", 1)
+		}
 		metrics := func() {
 			// what a metrics scrape evaluates: the accessors behind main()'s irc_sessions, irc_session_limit,
 			// irc_channels and irc_channel_limit gauges, on the state of the node the group talks to (the gauges
@@ -1709,7 +1753,7 @@ func (r *e2Run) stress(ctx context.Context) {
 		for k := 0; k < n; k++ {
 			nops := 20
 			if r.prop == "C20" {
-				nops = 24
+				nops = 26
 			}
 			opk := r.choice("stress/op", nops)
 			if d := os.Getenv("VERIF_DBG_NOOP"); d != "" && strings.Contains(d, fmt.Sprintf(",%d,", opk)) {
@@ -1720,6 +1764,8 @@ func (r *e2Run) stress(ctx context.Context) {
 				launch(metrics)
 			case 22, 23:
 				launch(servicesLink)
+			case 24, 25:
+				launch(earlyReader)
 			case 17:
 				launch(stale)
 			case 18, 19:
